@@ -169,7 +169,7 @@ def scalar_corpus(rng, thorough):
     pieces = ["a", "b", "Z", "9", "_", ".", " ", "  ", "\t", "-", ":", "#", "?", ",", "[", "]", "{", "}", "&", "*", "!", "|", ">", "'", '"',
               "%", "@", "`", "\\", "\n", "\n", "\x01", "\x1b", "\x7f", "\u0085", "\u00a0", "\u2028", "\ufeff", "\u00e9", "\u4e2d", "\U0001f600",
               "null", "~", "true", "0x1F", "- ", ": ", " #", "...", "---"]
-    n = 1500 if thorough else 250
+    n = 6000 if thorough else 400
     for _ in range(n):
         k = rng.randint(1, 8)
         s = "".join(rng.choice(pieces) for _ in range(k))
@@ -431,7 +431,7 @@ def run(ctx):
     in_pool = [s for cls, s in corpus if scalar_domain(s) == "in" and len(s) < 200]
     key_pool = [s for s in in_pool if len(s) < 40]
     out_pool = [s for cls, s in corpus if scalar_domain(s).startswith("out") and len(s) < 200]
-    nrand = 6000 if thorough else 500
+    nrand = 30000 if thorough else 1500
     for i in range(nrand):
         md = rng.choice([1, 2, 3, 4, 5, 5])
         t = random_tree(rng, in_pool, key_pool, 0, md)
@@ -484,7 +484,7 @@ def run(ctx):
                 cross_diff.append((idx, who, h, a, bb))
 
     # ------------------------------------------------------------------ histories
-    nh = 1500 if thorough else 250
+    nh = 6000 if thorough else 600
     hists = []
     for i in range(nh):
         ops, expect = gen_history(rng, rng.randint(1, 30))
@@ -681,7 +681,7 @@ MANIFEST = {
             "s) = s for every scalar of the property's domain in block and flow context, against a model of yaml-cpp 0.7's emitter and loader "
             "for the emitted subset; the same statement is refuted for EmitScalar as it was before the repair commit (witness \" a\\n\"). "
             "Tree round trip: full statement kept as a Definition, base layer (single scalar) proved, collections by correspondence only. "
-            "All induction, no bounds. Every run re-ties the model to /repo: ~5000 (thorough ~17000) generated trees and 250 (1500) API "
+            "All induction, no bounds. Every run re-ties the model to /repo: ~7000 (thorough ~75000) generated trees and 600 (6000) API "
             "histories are run through the extracted model and through the real code (ASan/UBSan build); bytes, trees, results are diffed "
             "and the property's oracles are evaluated on the implementation's observations.",
     "note": "No axioms (Print Assumptions: closed under the global context for all theorems). Trusted: Coq kernel (+vm_compute for the "
